@@ -160,6 +160,27 @@ def _build_generated():
     ne2 = mk("neon2", ["Ne"], [[-0.5, 4.75, 2.0]], [])
     ne2.atomic_charges = _np.array([1.125])
     out["gen_no_bond_tag.mol2"] = ("mol2", ne.dumps_mol2().replace("@<TRIPOS>BOND\n", "") + water.dumps_mol2() + ne2.dumps_mol2().replace("@<TRIPOS>BOND\n", ""))
+    # a header without the (optional) blank status line: the charge-type line is directly followed by the ATOM tag
+    def compact_header(m):
+        lines = nocomment(m.dumps_mol2()).splitlines()
+        ia = lines.index("@<TRIPOS>ATOM")
+        while lines[ia - 1].strip() == "":
+            del lines[ia - 1]
+            ia -= 1
+        return "\n".join(lines) + "\n"
+
+    out["gen_compact_header.mol2"] = ("mol2", compact_header(wq) + compact_header(hq) + compact_header(wq))
+
+    # trajectory-style xyz: the comment line of every frame starts with numbers ("<frame no> <energy>")
+    def traj(ms):
+        out_ = []
+        for k_, m_ in enumerate(ms):
+            ls = m_.dumps_xyz().splitlines()
+            ls[1] = f"{k_} {-76.4 - 0.125 * k_:.6f}"
+            out_.append("\n".join(ls) + "\n")
+        return "".join(out_)
+
+    out["gen_traj.xyz"] = ("xyz", traj([water, hcl, w2, hcl, w3, ne]))
     out["gen_mixed.xyz"] = ("xyz", "".join(m.dumps_xyz() for m in (water, ethane, hcl)))
     out["gen_edge.xyz"] = ("xyz", "".join(m.dumps_xyz() for m in (ne, water, hcl)))
     out["gen_confs.xyz"] = ("xyz", "".join(m.dumps_xyz() for m in (water, w2, w3)))
